@@ -2,5 +2,7 @@ SPECIFICATION Spec
 CONSTANTS
   Shared = FALSE
   MaxInst = 3
+  MaxSteps = 4
+VIEW view
 INVARIANTS Isolation DefaultsIntact
 CHECK_DEADLOCK FALSE
